@@ -1052,6 +1052,8 @@ class Corr:
     def __repr__(self, print_range=None):
         if print_range is None:
             print_range = [0, None]
+        else:
+            print_range = list(print_range)
 
         content_string = ""
         content_string += "Corr T=" + str(self.T) + " N=" + str(self.N) + "\n"  # +" filled with"+ str(type(self.content[0][0])) there should be a good solution here
